@@ -192,7 +192,7 @@ CHECKS["C15"] = dict(
 
 CHECKS["C10"] = dict(
     runs=[dict(pkg="server", harness="VfC10_modifyCut", reach=["end", "cut-done", "probe-done"], validate=2,
-               bounds="real Server.Modify (3 goroutines) on a scripted session [params, election, ADD, ADD] cut off after 0-4 messages by EOF / Canceled / transport error, or whose Send fails from response 0-3 on; then a probe: new session (negotiate, higher id, ADD), Get, Flush; deterministic schedule"),
+               bounds="real Server.Modify (3 goroutines) on a scripted session [params, election, ADD, batch of 2 ADDs] cut off after 0-4 messages by EOF / Canceled / transport error, or whose Send fails from response 0-4 on (incl. between the results of one request); then a probe: new session (negotiate, higher id, ADD), Get, Flush; deterministic schedule"),
           dict(pkg="server", harness="VfC10_getCut", reach=["end", "cut-done", "probe-done"], validate=2,
                bounds="real Server.Get over 3 installed next-hops whose stream fails after 0-3 responses; then the same probe (its ADD writes to the instance the abandoned Get was reading)"),
           dict(pkg="server", harness="VfC10_modifyCutSched", reach=["end"], quick=dict(skip=True), validate=0, replay_attempts=20, opts=dict(unwind=16),
@@ -208,7 +208,9 @@ CHECKS["C14"] = dict(
     runs=[dict(pkg="client", harness="VfC14_fault", reach=["end", "reset-done", "done-signalled"], validate=2, opts=dict(unwind=40),
                bounds="real Connect (sender + receiver goroutines) against a scripted conformant stream with ONE fault: Send failing from index 0-3 (immediately, or slowly while the application keeps queueing) or Recv failing after 0-3 responses, 3 status classes; a burst of 8 queued requests (> buffer 5 + in flight); then AwaitConverged, Done, Close (optional), Reset, reconnect on a healthy stream, one more exchange; deterministic schedule"),
           dict(pkg="client", harness="VfC14_faultSched", reach=["end"], quick=dict(skip=True), validate=0, replay_attempts=10, opts=dict(unwind=40),
-               bounds="as fault with one pre-emptive context switch at any synchronisation point")],
+               bounds="as fault with one pre-emptive context switch at any synchronisation point"),
+          dict(pkg="client", harness="VfC14_twoFaults", reach=["end"], validate=2, opts=dict(unwind=60),
+               bounds="a sequence of two faults (each: kind, index, status class symbolic), with Reset + reconnect in between and a healthy exchange at the end")],
     assumptions=["the gRPC stream is a scripted object: a failed Send also ends the receive side, CloseSend ends the stream with EOF", "goroutines run as coroutines switching at synchronisation operations only"],
     level_text="Bounded symbolic execution of the client's connection machinery under the engine's scheduler with the fault position/kind symbolic; a blocked call shows up as a failed assertion or as a deadlock, replayed natively under a watchdog.",
     level_note="Trusted: go/ssa, gosym scheduler (context bound per run), z3.")
